@@ -661,10 +661,3 @@ func runC10(r *core.Run) {
 		}
 	}
 }
-
-func clipStr(s string, n int) string {
-	if len(s) > n {
-		return s[:n] + "…"
-	}
-	return s
-}
